@@ -2,7 +2,7 @@
 From PV Require Import Engine EngineProofs.
 Open Scope string_scope.
 Notation RG := (list val -> option string -> option string -> st -> R).
-Notation RP := (string -> option (list val) -> option string -> option string -> st -> R).
+Notation RP := (string -> option (list string) -> option (list val) -> option string -> option string -> st -> R).
 
 (** [cond] is what runs at each execution (each foreach item, each while iteration): the
     decorators are evaluated against the context of THAT moment *)
